@@ -33,16 +33,18 @@ type Step struct {
 	Cut    int           `json:"cut,omitempty"`
 	Count  int           `json:"count,omitempty"` // kind badcount: the field count written into the record header
 	Recs   [][]ref.Value `json:"recs,omitempty"`
+	Secs   int           `json:"secs,omitempty"` // kind wait: seconds that pass (tcp only; templates of a tcp session have no lifetime)
 }
 
 // Case is a history against one collecting process.
 type Case struct {
 	Mode  string `json:"mode"`
 	Proto string `json:"proto"`
+	TTL   uint32 `json:"ttl,omitempty"` // tcp: the TemplateTTL of the configuration (udp always runs with 1800 on a frozen clock)
 	Steps []Step `json:"steps"`
 }
 
-type Stats struct{ AfterReplace, AfterInvalidate, CrossDomain, Accepted, Rejected bool }
+type Stats struct{ AfterReplace, AfterInvalidate, CrossDomain, Accepted, Rejected, Waited bool }
 
 var (
 	rec  *ev.Recorder
@@ -55,7 +57,7 @@ func TestMain(m *testing.M) {
 	if rp := ev.LoadReplay(); rp != nil {
 		ev.RunReplay(rp, func(c Case) *ev.Failure { return runCase(c, nil) })
 	}
-	rec = ev.New("C04", "histories of template / undecodable-template / data messages over 2 observation domains x 2 template ids x 3 decoding modes x tcp/udp: exhaustive over a 30-symbol alphabet and over a second 14-symbol alphabet (re-announcements differing only in an unknown element's declared length, field counts far beyond the specifiers present, a known octet-array element declared with a fixed length in the other domain) to depth 3 (quick) / 4 (thorough), rapid histories up to length 60 with random templates beyond; non-trivial = a data message is judged after a replacement or an invalidation of its template, or the same id is live in both domains; distinct by hash of the history",
+	rec = ev.New("C04", "histories of template / undecodable-template / data messages over 2 observation domains x 2 template ids x 3 decoding modes x tcp/udp: exhaustive over a 31-symbol alphabet (including 61 s passing on tcp sessions configured with a 60 s template TTL, which must not expire anything) and over a second 14-symbol alphabet (re-announcements differing only in an unknown element's declared length, field counts far beyond the specifiers present, a known octet-array element declared with a fixed length in the other domain) to depth 3 (quick) / 4 (thorough), rapid histories up to length 60 with random templates beyond; non-trivial = a data message is judged after a replacement or an invalidation of its template, or the same id is live in both domains; distinct by hash of the history",
 		"reference codec refipfix and an independent map model of the template table", "verif hooks VerifDecodePacket / VerifTemplates")
 	code := m.Run()
 	rec.Write()
@@ -91,17 +93,38 @@ func runCase(c Case, st *Stats) *ev.Failure {
 		st = &Stats{}
 	}
 	var clk collector.VerifClock
+	var hclk *glue.HClock
+	ttl := uint32(1800)
 	if c.Proto == "udp" {
 		clk = glue.FrozenClock{T: time.Unix(1700000000, 0)}
+	} else {
+		hclk = glue.NewHClock(time.Unix(1700000000, 0))
+		clk, ttl = hclk, c.TTL
 	}
 	mode := collector.DecodingMode(c.Mode)
-	col := glue.NewCol(c.Proto, mode, clk, 1800)
+	col := glue.NewCol(c.Proto, mode, clk, ttl)
 	model := map[glue.TplKey][]ref.Field{}
 	replaced := map[glue.TplKey]bool{}
 	invalidated := map[glue.TplKey]bool{}
 	unjudged := map[glue.TplKey]bool{}
 	for i, s := range c.Steps {
 		key := glue.TplKey{Domain: s.Domain, ID: s.ID}
+		if s.Kind == "wait" {
+			// time passes on a tcp session: whatever timers the collector armed fire and run
+			if hclk != nil {
+				hclk.Advance(time.Duration(s.Secs) * time.Second)
+				for len(hclk.Pending) > 0 {
+					if !hclk.Start(0, 10*time.Second) || !hclk.Finish(10*time.Second) {
+						return ev.Failf("step %d: a timer callback did not return", i)
+					}
+				}
+				st.Waited = true
+			}
+			if f := compareStored(col, model, unjudged, i, s); f != nil {
+				return f
+			}
+			continue
+		}
 		pkt := s.packet()
 		dr := col.Decode(pkt, "10.1.2.3:4739")
 		if dr.Hung || dr.Panic != "" {
@@ -208,23 +231,30 @@ func runCase(c Case, st *Stats) *ev.Failure {
 		if s.Kind == "data" && invalidated[key] {
 			st.AfterInvalidate = true
 		}
-		// the stored table must equal the model
-		stored := col.StoredTemplates()
-		if len(stored) != len(model) {
-			return ev.Failf("after step %d (%s domain %d id %d): collector holds %d templates, model %d (%v vs %v)", i, s.Kind, s.Domain, s.ID, len(stored), len(model), keys(stored), keys(model))
+		if f := compareStored(col, model, unjudged, i, s); f != nil {
+			return f
 		}
-		for k, fs := range model {
-			sf, ok := stored[k]
-			if !ok {
-				return ev.Failf("after step %d: template %+v missing from the collector", i, k)
-			}
-			if len(sf) != len(fs) {
-				return ev.Failf("after step %d: template %+v has %d fields, model %d", i, k, len(sf), len(fs))
-			}
-			for j := range fs {
-				if sf[j].ID != fs[j].ID || sf[j].Ent != fs[j].Ent || (sf[j].Len != fs[j].Len && !unjudged[k]) {
-					return ev.Failf("after step %d: template %+v field %d is %+v, model %+v", i, k, j, sf[j], fs[j])
-				}
+	}
+	return nil
+}
+
+// compareStored checks that the collector's template table equals the model.
+func compareStored(col *glue.Col, model map[glue.TplKey][]ref.Field, unjudged map[glue.TplKey]bool, i int, s Step) *ev.Failure {
+	stored := col.StoredTemplates()
+	if len(stored) != len(model) {
+		return ev.Failf("after step %d (%s domain %d id %d): collector holds %d templates, model %d (%v vs %v)", i, s.Kind, s.Domain, s.ID, len(stored), len(model), keys(stored), keys(model))
+	}
+	for k, fs := range model {
+		sf, ok := stored[k]
+		if !ok {
+			return ev.Failf("after step %d: template %+v missing from the collector", i, k)
+		}
+		if len(sf) != len(fs) {
+			return ev.Failf("after step %d: template %+v has %d fields, model %d", i, k, len(sf), len(fs))
+		}
+		for j := range fs {
+			if sf[j].ID != fs[j].ID || sf[j].Ent != fs[j].Ent || (sf[j].Len != fs[j].Len && !unjudged[k]) {
+				return ev.Failf("after step %d: template %+v field %d is %+v, model %+v", i, k, j, sf[j], fs[j])
 			}
 		}
 	}
@@ -269,6 +299,9 @@ func runRecorded(phase string, c Case) *ev.Failure {
 	if st.Rejected {
 		cl = append(cl, "data_rejected")
 	}
+	if st.Waited && c.TTL > 0 {
+		cl = append(cl, "tcp_time_passes_with_ttl_configured")
+	}
 	rec.Case(ev.Hash(c), nontrivial(st), append(cl, phase, "mode_"+c.Mode, "proto_"+c.Proto)...)
 	if nontrivial(st) && len(c.Steps) <= 4 {
 		rec.Sample(phase, c)
@@ -302,6 +335,7 @@ func TestC04(t *testing.T) {
 			Step{Kind: "data", Domain: d, ID: 256, Fields: U, Recs: recU},
 		)
 	}
+	alphabet = append(alphabet, Step{Kind: "wait", Secs: 61})
 	// second alphabet (one id, both domains): re-announcements that differ only in the declared
 	// length of an unknown element, field counts far beyond the specifiers present, and a known
 	// octet-array element declared with a fixed length in the other domain
@@ -346,6 +380,9 @@ func TestC04(t *testing.T) {
 		}
 		if len(prefix) > 0 {
 			c := Case{Mode: mode, Proto: proto, Steps: append([]Step(nil), prefix...)}
+			if proto == "tcp" {
+				c.TTL = 60
+			}
 			if f := runRecorded("exhaustive", c); f != nil {
 				rec.Violation("exhaustive", c, f.Msg)
 				t.Errorf("exhaustive: %s", f.Msg)
@@ -396,6 +433,9 @@ func genCase(t *rapid.T) Case {
 		Mode:  rapid.SampledFrom([]string{"Strict", "LenientKeepUnknown", "LenientDropUnknown"}).Draw(t, "mode"),
 		Proto: rapid.SampledFrom([]string{"tcp", "udp"}).Draw(t, "proto"),
 	}
+	if c.Proto == "tcp" {
+		c.TTL = rapid.SampledFrom([]uint32{0, 0, 1, 60, 1800}).Draw(t, "ttl")
+	}
 	var tpls [][]gen.TField
 	n := rapid.IntRange(2, 60).Draw(t, "n")
 	for i := 0; i < n; i++ {
@@ -403,6 +443,10 @@ func genCase(t *rapid.T) Case {
 		kind := rapid.IntRange(0, 9).Draw(t, "kind")
 		if len(tpls) == 0 {
 			kind = 0
+		}
+		if kind == 9 && c.Proto == "tcp" && rapid.Bool().Draw(t, "wait") {
+			c.Steps = append(c.Steps, Step{Kind: "wait", Secs: rapid.SampledFrom([]int{1, 59, 61, 1799, 1801, 4000}).Draw(t, "secs")})
+			continue
 		}
 		switch {
 		case kind <= 2: // new template
